@@ -787,7 +787,12 @@ class Built(object):
             p = prog['params']
             rp = RecordingParameters(sampling_rate=p.get('rate', 1.0), ignore_enforced_sampling=p.get('ignore_forced', False),
                                      skipped=p.get('skipped', False), copy_data_on_intercepion=p.get('copy', False) and not p.get('copy_set_later'))
-            rec.recording_params(rp)(cls)
+            if p.get('with_keyword'):
+                # the settings object AND the same rate once more as a keyword (a call site that grew over time): whichever way the two are
+                # combined, the class copies on interception and is sampled at that rate
+                rec.recording_params(rp, sampling_rate=p.get('rate', 1.0))(cls)
+            else:
+                rec.recording_params(rp)(cls)
             if p.get('copy') and p.get('copy_set_later'):
                 # one settings object registered for the class, the flag is switched on later through its documented attribute
                 rp.copy_data_on_intercepion = True
@@ -948,6 +953,7 @@ class Built(object):
             self.fault_log.append((pos, fault))
             if rec is not None:
                 rec.disable_recording()
+                self.journal.add({'ev': 'recording_disabled'})
         if fault == 'reenable':
             # a configuration sync that becomes due mid-request switches recording ON again although it already is on (idempotent)
             self.fault_log.append((pos, fault))
